@@ -8,7 +8,10 @@
 //!         3 redundant length beyond the datagram; 4 sequence numbers around the wrap / half-space / far ahead (n
 //!         datagrams); 5 a run of 3n (up to 2100) datagrams with distinct sequence numbers ahead of the expected one (receive-buffer growth);
 //!         6 a 1400 / 9000 / 65507-byte datagram (well-formed primary); 7 random bytes; 8 a duplicate of a genuine
-//!         datagram captured on the wire; 9 primary length 0 and 65535
+//!         datagram captured on the wire; 9 primary length 0 and 65535; 10 sequence arithmetic away from the start: the
+//!         application restarts reception at a base in {32760, 65500, 16380, 32767} (UdtlReceiveBuffer::reset, as at a new
+//!         fax page), then base+1 (buffered), base, base+2 .. base+n arrive (in-order delivery across the half-space / wrap
+//!         with a non-empty buffer behind it)
 //! Oracles: C07.panic (panic hook), C07.hang (every delivered datagram makes recv() return within the settle window; CPU
 //! budget), C07.alloc (bytes requested in an input's window <= 64 x bytes + 64 KiB + n x (max_datagram + 2 KiB), single
 //! request <= the same), C07.alive (after the hostile phase recv() still returns for genuine datagrams, and after the
@@ -24,7 +27,7 @@ use std::sync::atomic::{AtomicU64, Ordering};
 use std::sync::{Arc, Mutex};
 use std::time::Duration;
 
-const SHAPES: i64 = 10;
+const SHAPES: i64 = 11;
 
 pub fn budget(_prop: &str, tier: Tier) -> u64 {
     match tier {
@@ -88,6 +91,13 @@ fn hostile(shape: i64, n: i64, seed: u64, expected: u16, captured: Option<Vec<u8
         }
         7 => vec![rnd(1 + (seed % 1400) as usize)],
         8 => captured.map(|c| vec![c.clone(), c]).unwrap_or_else(|| vec![rnd(6)]),
+        10 => {
+            let mut v = vec![udptl(expected.wrapping_add(1), &rnd(6), None, &[]), udptl(expected, &rnd(6), None, &[])];
+            v.extend((2..n.min(300) as u16 + 2).map(|k| udptl(expected.wrapping_add(k), &rnd(6), None, &[])));
+            // one far-ahead packet in the middle keeps the out-of-order buffer populated
+            v.insert(v.len() / 2, udptl(expected.wrapping_add(40), &rnd(6), None, &[]));
+            v
+        }
         _ => vec![udptl(expected, &[], Some(0), &[]), udptl(expected.wrapping_add(1), &[], Some(65535), &[])],
     }
 }
@@ -152,6 +162,11 @@ pub async fn run(ctx: &Ctx) {
     for op in &ops {
         ctx.sleep_until_ms(op.at_ms).await;
         let (shape, n, seed, spoof) = (op.arg(0), op.arg(1), op.arg(2) as u64, op.arg(3) != 0);
+        if shape == 10 {
+            let base = [32_760u16, 65_500, 16_380, 32_767][(seed % 4) as usize];
+            rbuf.lock().await.reset(base);
+            ctx.ev("app B restarts reception", &format!("reset({base})"));
+        }
         let expected = rbuf.lock().await.expected_seq();
         let captured = ctx.net.take_captured().into_iter().rev().find(|(f, t, _)| *f == a_addr && *t == b_addr).map(|x| x.2);
         let dgrams = hostile(shape, n, seed, expected, captured);
